@@ -15,7 +15,12 @@ import time
 from . import common, instrument, runner, tlc
 
 PID = "C11"
-ARGS = [[], [7], [7, 8], [7, 8, 9]]
+# an argument >= 100 stands for a two-item LIST: 156 is ⟨5|6⟩ (a call whose single argument is itself a list)
+ARGS = [[], [7], [7, 8], [7, 8, 9], [156], [4, 123]]
+
+
+def lit(x):
+    return f"⟨{(x - 100) // 10}|{x % 10}⟩" if x >= 100 else f"{x} "
 
 
 def compile_history(hist):
@@ -30,7 +35,7 @@ def compile_history(hist):
             out.append({1: ",", 2: "\",", 3: "\"\","}[h["k"]])
         elif a == "L":
             k = len(h["args"])
-            out.append("".join(f"{x} " for x in h["args"]) + f"λ{k}|" + "_" * k)
+            out.append("".join(lit(x) for x in h["args"]) + f"λ{k}|" + "_" * k)
             stack.append(";†_")
         elif a == "F":
             k = len(h["args"])
@@ -39,9 +44,10 @@ def compile_history(hist):
             name = "fghjmpqrstuvwyzb"[fcount % 16] + ("" if fcount < 16 else "abcdefgh"[(fcount // 16) % 8])
             fcount += 1
             out.append(f"@{name}:{k}|" + "_" * k)
-            stack.append(";" + "".join(f"{x} " for x in h["args"]) + f"@{name};")
+            stack.append(";" + "".join(lit(x) for x in h["args"]) + f"@{name};")
         elif a == "X":
-            out.append(stack.pop())
+            # early: the scope is left through the break element right before its end
+            out.append(("X" if h.get("early") else "") + stack.pop())
     while stack:
         out.append(stack.pop())
     return "".join(out)
@@ -81,7 +87,10 @@ def patch_get_input():
             _depth[0] -= 1
         if outer:
             j = runner.value_json(v)
-            _reads.append({"kind": kind, "depth": depth, "v": j["i"] if "i" in j else -999})
+            code = j["i"] if "i" in j else -999
+            if "l" in j and len(j["l"]) == 2 and all("i" in x and 0 <= x["i"] <= 9 for x in j["l"]):
+                code = 100 + 10 * j["l"][0]["i"] + j["l"][1]["i"]
+            _reads.append({"kind": kind, "depth": depth, "v": code})
         return v
 
     H.get_input = get_input
@@ -105,7 +114,7 @@ def observe(case):
 
 def histories(maxlen, rng=None, n=None, maxdepth=2):
     acts = [{"a": "E"}] + [{"a": "P", "k": k} for k in (1, 2, 3)] + \
-           [{"a": "L", "args": a} for a in ARGS] + [{"a": "F", "args": a} for a in ARGS] + [{"a": "X"}]
+           [{"a": "L", "args": a} for a in ARGS] + [{"a": "F", "args": a} for a in ARGS] + [{"a": "X"}, {"a": "X", "early": True}]
 
     def ok(h):
         d = 0
